@@ -30,8 +30,14 @@ func checkC03(r *report.Report, tier string, seed int64) error {
 	opt := gen.DefaultOptions()
 	opt.WellFormed = true
 	r.Rule = "generated setup files that follow the documented conventions only (WellFormed generator mode: struct operands, syntactically valid notations naming existing functions of an acceptable shape, hooks of fitting shape): 1-2 converter interfaces, 1-3 methods each, all styles/receivers/arguments, surrounding declarations and comments; oracle: exit 0 and one function per method; non-trivial = at least two notations in the file; distinct by file contents"
-	return pipelineCheck(r, "C03", seed, tierN(tier, 224, 6000), opt, nil,
-		func(cr *caseRun) bool { return strings.Count(cr.C.Files[cr.C.SetupPath], "// :") >= 2 }, c03Oracle)
+	if err := pipelineCheck(r, "C03", seed, tierN(tier, 160, 5000), opt, nil,
+		func(cr *caseRun) bool { return strings.Count(cr.C.Files[cr.C.SetupPath], "// :") >= 2 }, c03Oracle); err != nil {
+		return err
+	}
+	// layout independence: comments in every position, interface sizes from one very short method up
+	r.Rule += "; plus the layout stream (comments in every position, one-line interfaces with method names of 1..25 bytes, declarations around and between interfaces, no comments at all)"
+	return pipelineCheck(r, "C03", seed+1, tierN(tier, 128, 4000), gen.Options{}, func(i int) *gen.Case { return gen.GenerateLayout(seed+1, i, false) },
+		func(cr *caseRun) bool { return true }, c03Oracle)
 }
 
 func checkC04(r *report.Report, tier string, seed int64) error {
